@@ -13,10 +13,17 @@
 //!  |                      |          | under the permissive walker                  | statement)                                 |
 //!  | source denied        | REFUSED  | longest deny prefix not beaten by a strictly | deny/allow lists exist only for the other  |
 //!  |                      |          | longer allow prefix; only-allow lists miss   | address family (doc comment is ambiguous)  |
-//!  | body unparsable      | FORMERR  | a record runs off the end of the message;    | anything that is not on the small          |
-//!  |                      |          | two OPT records (RFC 6891 §6.1.1)            | "certainly valid" whitelist below          |
-//!  | EDNS version > 0     | BADVERS  | the one OPT in the additional section has    | the records could not be walked            |
-//!  |                      |          | version > 0                                  |                                            |
+//!  | body unparsable      | FORMERR  | a record runs off the end of the message     | anything that is not on the small          |
+//!  |                      |          |                                              | "certainly valid" whitelist below          |
+//!  | pseudo-RR misplaced  | FORMERR  | more than one OPT RR anywhere in the message | a lone OPT in answer/authority, OPT with a |
+//!  |                      |          | (RFC 6891 §6.1.1 MUST); a well-formed TSIG   | non-root owner, SIG(0) anywhere, a type-250|
+//!  |                      |          | RR that is not the last additional record /  | record that is not a well-formed TSIG RR   |
+//!  |                      |          | a second TSIG (RFC 8945 §5.2 MUST)           | (see `pseudo_records`)                     |
+//!  | EDNS version > 0     | BADVERS  | the one OPT in the additional section has    | the records could not be walked; a lone    |
+//!  |                      |          | version > 0                                  | OPT outside the additional section has one |
+//!  | TSIG key unknown     | NOTAUTH  | –                                            | one well-formed TSIG in its place (no keys |
+//!  |                      |          |                                              | are configured: RFC 8945 §5.2.1 says       |
+//!  |                      |          |                                              | NOTAUTH/BADKEY, ignoring it is tolerated)  |
 //!  | unsupported opcode   | NOTIMP   | STATUS, NOTIFY                               | –                                          |
 //!  | no enclosing zone    | REFUSED  | QUERY and no configured origin is a suffix   | –                                          |
 //!
@@ -44,6 +51,7 @@ pub const FORMERR: u16 = 1;
 pub const NXDOMAIN: u16 = 3;
 pub const NOTIMP: u16 = 4;
 pub const REFUSED: u16 = 5;
+pub const NOTAUTH: u16 = 9;
 pub const BADVERS: u16 = 16;
 
 #[derive(Clone, Debug, PartialEq, Eq)]
@@ -90,6 +98,11 @@ pub struct Expect {
     pub qecho: QEcho,
     pub question: Option<Question>,
     pub conds: Vec<(&'static str, Tri)>,
+    /// pseudo-record situations found in the body (counters only; see `pseudo_records`)
+    pub tags: Vec<&'static str>,
+    /// "pseudo-RR misplaced" is the ONLY certain condition and without it the request would be a
+    /// strict zone answer: a server that lets the body through hands out zone data
+    pub pseudo_shadows_answer: bool,
 }
 
 pub fn question(b: &[u8]) -> Result<Question, String> {
@@ -149,24 +162,184 @@ pub enum Edns {
     Unknown,
 }
 
-/// (body unparsable?, EDNS)
-pub fn body(b: &[u8], q: &Question, opcode: u8) -> (Tri, Edns) {
+/// What the model concluded about everything after the question.
+#[derive(Clone, Debug)]
+pub struct Body {
+    /// framing: a record runs off the end (Yes) / not on the certainly-valid whitelist (Maybe)
+    pub framing: Tri,
+    /// pseudo-record placement (see `pseudo_records`)
+    pub pseudo: Tri,
+    pub edns: Edns,
+    /// a lone OPT outside the additional section announces a version > 0 (don't-care BADVERS)
+    pub stray_opt_version: bool,
+    /// exactly one well-formed TSIG RR, last record of the additional section
+    pub tsig_in_place: bool,
+    pub tags: Vec<&'static str>,
+}
+
+/// RFC 8945 §4.2: algorithm name (uncompressed), 48-bit time, fudge, MAC size + MAC, original id,
+/// error, other len + other data, nothing left over; owner = key name, CLASS ANY, TTL 0.
+fn tsig_well_formed(b: &[u8], r: &refwire::WRecord) -> bool {
+    if r.class != 255 || r.ttl != 0 || r.owner.pointers != 0 {
+        return false;
+    }
+    let rd = r.rdata(b);
+    // algorithm name: plain labels inside the RDATA
+    let mut i = 0usize;
+    loop {
+        let Some(&l) = rd.get(i) else { return false };
+        if l & 0xC0 != 0 {
+            return false;
+        }
+        i += 1 + l as usize;
+        if l == 0 {
+            break;
+        }
+    }
+    if i > 255 || i + 10 > rd.len() {
+        return false;
+    }
+    let mac = u16::from_be_bytes([rd[i + 8], rd[i + 9]]) as usize;
+    i += 10 + mac;
+    if i + 6 > rd.len() {
+        return false;
+    }
+    let other = u16::from_be_bytes([rd[i + 4], rd[i + 5]]) as usize;
+    i + 6 + other == rd.len()
+}
+
+/// SIG(0)-shaped: TYPE SIG (24) whose "type covered" field is 0 (RFC 2931 §3).
+fn sig0_shaped(b: &[u8], r: &refwire::WRecord) -> bool {
+    let rd = r.rdata(b);
+    r.rtype == 24 && rd.len() >= 18 && rd[0] == 0 && rd[1] == 0
+}
+
+/// Placement rules of the pseudo-records, evaluated on the model's own walk of the message.
+///
+/// REQUIRED FORMERR (Yes) – only where an RFC says MUST to the receiver:
+///  * more than one RR of TYPE OPT anywhere in the message.  RFC 6891 §6.1.1: "When an OPT RR is
+///    included within any DNS message, it MUST be the only OPT RR in that message.  If a query
+///    message with more than one OPT RR is received, a FORMERR (RCODE=1) MUST be returned."  The
+///    count is over the whole message, so answer+additional / authority+additional count too.
+///  * a well-formed TSIG RR anywhere but last in the additional section, or two of them.  RFC 8945
+///    §5.2: "If multiple TSIG records are detected or a TSIG record is present in any other
+///    position, the DNS message is dropped and a response with RCODE 1 (FORMERR) MUST be returned."
+///    RFC 6891 §6.1.1 repeats that OPT placement "does not override the need for the TSIG or SIG(0)
+///    RRs to be the last in the additional section".  (Applies because the harness builds hickory
+///    with `dnssec-ring`, i.e. the server implements TSIG; a build without it would see an unknown
+///    type and this clause would have to become a don't-care.)
+///
+/// DON'T-CARE (Maybe: FORMERR and the ordinary outcome both admissible; counted per tag):
+///  * a lone OPT in the answer or authority section.  RFC 6891 defines the OPT RR for the
+///    additional section only ("MAY be added to the additional data section of a request"), but
+///    gives the receiver no instruction for a single misplaced one – rejecting (BIND, Knot, hickory's
+///    decoder) and ignoring it are both defensible.  If it announces a version > 0, BADVERS is
+///    admissible as well;
+///  * an OPT whose owner is not the root: §6.1.2 "MUST be 0 (root domain)" binds the sender; no
+///    receiver action is prescribed;
+///  * SIG(0)-shaped records (answer/authority/not last): RFC 2931 asks for "the end of the
+///    additional section" but mandates no RCODE, and hickory does not implement SIG(0);
+///  * a type-250 record that is not a well-formed TSIG RR (wrong class / TTL / RDATA layout): §5.2
+///    says FORMERR for a TSIG that "cannot be interpreted", but what exactly is interpretable is not
+///    the model's call (an empty one is a legitimate RRset-deletion form in an UPDATE section).
+fn pseudo_records(b: &[u8], m: &refwire::WMessage) -> (Tri, Edns, bool, bool, Vec<&'static str>) {
+    let mut tags: Vec<&'static str> = Vec::new();
+    let mut verdict = Tri::No;
+    fn raise(v: &mut Tri, t: Tri) {
+        if t == Tri::Yes || *v == Tri::No {
+            *v = t;
+        }
+    }
+    // OPT
+    let opts: Vec<(usize, &refwire::WRecord)> = m.sections.iter().enumerate().flat_map(|(si, s)| s.iter().filter(|r| r.rtype == 41).map(move |r| (si, r))).collect();
+    let mut edns = Edns::None;
+    let mut stray_version = false;
+    match opts.len() {
+        0 => {}
+        1 => {
+            let (si, o) = opts[0];
+            let version = (o.ttl >> 16) as u8;
+            if si == 2 {
+                edns = Edns::Version(version);
+                if !o.owner.labels.is_empty() {
+                    tags.push("opt-owner-nonroot");
+                    raise(&mut verdict, Tri::Maybe);
+                }
+            } else {
+                tags.push(if si == 0 { "opt1/an" } else { "opt1/ns" });
+                stray_version = version > 0;
+                raise(&mut verdict, Tri::Maybe);
+            }
+        }
+        n => {
+            edns = Edns::Unknown;
+            tags.push(match (n, opts[0].0, opts[1].0) {
+                (2, 0, 2) => "opt2/an+ar",
+                (2, 1, 2) => "opt2/ns+ar",
+                (2, 2, 2) => "opt2/ar+ar",
+                (2, 0, 1) => "opt2/an+ns",
+                (2, _, _) => "opt2/same-data-section",
+                _ => "opt2/three-or-more",
+            });
+            raise(&mut verdict, Tri::Yes);
+        }
+    }
+    // TSIG
+    let last_ar = m.sections[2].len().wrapping_sub(1);
+    let mut good_tsigs = 0usize;
+    let mut tsig_in_place = false;
+    for (si, sec) in m.sections.iter().enumerate() {
+        for (ri, r) in sec.iter().enumerate().filter(|(_, r)| r.rtype == 250) {
+            if !tsig_well_formed(b, r) {
+                tags.push("tsig-malformed");
+                raise(&mut verdict, Tri::Maybe);
+                continue;
+            }
+            good_tsigs += 1;
+            if si == 2 && ri == last_ar {
+                tsig_in_place = true;
+                tags.push("tsig/ar-last");
+            } else {
+                tags.push(match si {
+                    0 => "tsig/an",
+                    1 => "tsig/ns",
+                    _ => "tsig/ar-not-last",
+                });
+                raise(&mut verdict, Tri::Yes);
+            }
+        }
+    }
+    if good_tsigs >= 2 {
+        tags.push("tsig/two");
+    }
+    // SIG(0)
+    for (si, sec) in m.sections.iter().enumerate() {
+        for (ri, _) in sec.iter().enumerate().filter(|(_, r)| sig0_shaped(b, r)) {
+            let in_place = si == 2 && (ri == last_ar || (ri + 1 == last_ar && sec[last_ar].rtype == 250));
+            tags.push(match (si, in_place) {
+                (0, _) => "sig0/an",
+                (1, _) => "sig0/ns",
+                (_, true) => "sig0/ar-last",
+                _ => "sig0/ar-not-last",
+            });
+            raise(&mut verdict, Tri::Maybe);
+        }
+    }
+    tags.dedup();
+    (verdict, edns, stray_version, tsig_in_place && good_tsigs == 1 && verdict != Tri::Yes, tags)
+}
+
+/// Everything after the question: framing, pseudo-record placement, EDNS.
+pub fn body(b: &[u8], q: &Question, opcode: u8) -> Body {
     let m = match refwire::walk(b) {
         Ok(m) => m,
         Err(e) => {
             // data that is simply not there: every parser must fail
             let missing = e.contains("runs off the end") || e.contains("short read");
-            return (if missing { Tri::Yes } else { Tri::Maybe }, Edns::Unknown);
+            return Body { framing: if missing { Tri::Yes } else { Tri::Maybe }, pseudo: Tri::No, edns: Edns::Unknown, stray_opt_version: false, tsig_in_place: false, tags: vec![] };
         }
     };
-    let opts: Vec<&refwire::WRecord> = m.sections[2].iter().filter(|r| r.rtype == 41).collect();
-    if opts.len() >= 2 {
-        return (Tri::Yes, Edns::Unknown);
-    }
-    let edns = match opts.first() {
-        None => Edns::None,
-        Some(o) => Edns::Version((o.ttl >> 16) as u8),
-    };
+    let (pseudo, edns, stray_opt_version, tsig_in_place, tags) = pseudo_records(b, &m);
     // whitelist of certainly-valid bodies
     let mut simple = m.end == b.len();
     for (si, sec) in m.sections.iter().enumerate() {
@@ -211,7 +384,7 @@ pub fn body(b: &[u8], q: &Question, opcode: u8) -> (Tri, Edns) {
             }
         }
     }
-    (if simple { Tri::No } else { Tri::Maybe }, edns)
+    Body { framing: if simple { Tri::No } else { Tri::Maybe }, pseudo, edns, stray_opt_version, tsig_in_place, tags }
 }
 
 /// longest-suffix zone for folded labels
@@ -229,7 +402,7 @@ pub fn find_zone<'a>(cfg: &'a Config, qname: &Labels) -> Option<&'a crate::cfg::
 const ORDINARY_TYPES: &[u16] = &[1, 2, 5, 6, 15, 16, 28];
 
 pub fn gate(cfg: &Config, src: IpAddr, b: &[u8]) -> Expect {
-    let mut e = Expect { branch: "short", respond: false, err_rcodes: vec![], normal: Normal::None, qecho: QEcho::DontCare, question: None, conds: vec![] };
+    let mut e = Expect { branch: "short", respond: false, err_rcodes: vec![], normal: Normal::None, qecho: QEcho::DontCare, question: None, conds: vec![], tags: vec![], pseudo_shadows_answer: false };
     if b.len() < 12 {
         return e;
     }
@@ -250,16 +423,20 @@ pub fn gate(cfg: &Config, src: IpAddr, b: &[u8]) -> Expect {
         Some(_) => Tri::No,
     };
     let c_acl = acl_denied(cfg, src);
-    let (c_body, edns) = match &q {
+    let bd = match &q {
         Some(q) => body(b, q, opcode),
-        None => (Tri::No, Edns::None), // not evaluated: the question already failed
+        // not evaluated: the question already failed
+        None => Body { framing: Tri::No, pseudo: Tri::No, edns: Edns::None, stray_opt_version: false, tsig_in_place: false, tags: vec![] },
     };
-    let c_badvers = match edns {
-        _ if q.is_none() || c_body == Tri::Yes => Tri::No,
+    let (c_body, c_pseudo) = (bd.framing, bd.pseudo);
+    let c_badvers = match bd.edns {
+        _ if q.is_none() || c_body == Tri::Yes || c_pseudo == Tri::Yes => Tri::No,
         Edns::Version(v) if v > 0 => Tri::Yes,
         Edns::Unknown => Tri::Maybe,
+        _ if bd.stray_opt_version => Tri::Maybe,
         _ => Tri::No,
     };
+    let c_tsig_key = if bd.tsig_in_place && c_body != Tri::Yes { Tri::Maybe } else { Tri::No };
     let c_unsupported = if matches!(opcode, 2 | 4) { Tri::Yes } else { Tri::No };
     let zone = match (&q, opcode) {
         (Some(q), 0) => Some(find_zone(cfg, &q.labels)),
@@ -274,7 +451,9 @@ pub fn gate(cfg: &Config, src: IpAddr, b: &[u8]) -> Expect {
         ("formerr-question", c_question, FORMERR),
         ("refused-acl", c_acl, REFUSED),
         ("formerr-body", c_body, FORMERR),
+        ("formerr-pseudo", c_pseudo, FORMERR),
         ("badvers", c_badvers, BADVERS),
+        ("tsig-unknown-key", c_tsig_key, NOTAUTH),
         ("notimp-opcode", c_unsupported, NOTIMP),
         ("refused-nozone", c_nozone, REFUSED),
     ];
@@ -296,6 +475,12 @@ pub fn gate(cfg: &Config, src: IpAddr, b: &[u8]) -> Expect {
             _ => Normal::None,
         };
     }
+    if first_yes == Some("formerr-pseudo") && conds.iter().filter(|c| c.1 == Tri::Yes).count() == 1 && opcode == 0 {
+        if let (Some(Some(z)), Some(q)) = (zone, q.as_ref()) {
+            e.pseudo_shadows_answer = z.chain.iter().any(|h| h.kind != HKind::Skip) && q.qclass == 1 && ORDINARY_TYPES.contains(&q.qtype);
+        }
+    }
+    e.tags = bd.tags;
     e.branch = first_yes.unwrap_or(match &e.normal {
         Normal::Update => "update",
         Normal::Zone { marker: None, .. } => "zone-all-skip",
